@@ -20,6 +20,10 @@ def run(ctx):
     rep.floor('power-of-ten helpers', nph, 3)
     nn = normalform.check(rep, F)
     rep.floor('normalized() table rows', nn, 2)
+    from rules import limbmod
+    _Fl = F
+    nlm = limbmod.check(rep, _Fl, [f.name for f in _Fl.real_fns()])
+    rep.floor('functions reading big-integer limbs', nlm, 1)
     rep.trust('num-bigint: BigInt::sign / magnitude / from_biguint are the exact sign-magnitude decomposition')
     if ctx.tier == 'thorough':
         from rules import witness
